@@ -22,6 +22,12 @@ import EngineModel.Spec.Txn
 import EngineModel.Spec.Observe
 import Proofs.Txn
 import Properties.C13
+import EngineModel.Api.CratesV1
+import EngineModel.Db.V2Crates
+import EngineModel.TracksV2.Lens
+import EngineModel.Spec.Dir
+import EngineModel.TracksV1.Stmts
+import Proofs.Dir
 
 namespace EngineModel.Properties.C10
 open EngineModel.Spec.Txn EngineModel.Spec.Observe EngineModel.Proofs.Txn
@@ -82,6 +88,142 @@ theorem C10_open_transaction_is_lost :
     observe (fun db _ => db) c ⟨1⟩ = 1 ∧ observe (fun db _ => db) c.reopen ⟨1⟩ = 0 := by
   decide
 
+/-- What is observed is what is durable: after a settled history the database
+the connection sees is the committed one. -/
+theorem C10_durable_is_visible (ks : List (Call α)) (hs : ∀ k ∈ ks, k.settles) (db : α) :
+    (runCalls (Conn.idle db) ks).view = (runCalls (Conn.idle db) ks).committed := by
+  simp [Conn.view, C10_history_settles ks hs db]
+
+/-- Releasing every handle and loading the library again after *each* call of a
+settled history reaches the very connection state of the history run in one
+session: reopening is invisible to everything that follows (the tie compares
+the two runs at every prefix). -/
+theorem C10_reopen_invisible (ks : List (Call α)) (hs : ∀ k ∈ ks, k.settles) (db : α) :
+    runCallsReopen (Conn.idle db) ks = runCalls (Conn.idle db) ks := by
+  suffices h : ∀ c : Conn α, c.working = none → runCallsReopen c ks = runCalls c ks from h _ rfl
+  induction ks with
+  | nil => intro c _; rfl
+  | cons k ks ih =>
+    intro c hc
+    simp only [runCallsReopen, runCalls]
+    have hw := call_settles k (hs k List.mem_cons_self) c hc
+    rw [(C10_reopen_idle _ hw).1]
+    exact ih (fun k' hk' => hs k' (List.mem_cons_of_mem _ hk')) _ hw
+
+/-- The quantifier of the property — closing at **every prefix** of the
+history: for each `n`, the observation through any handle after the first `n`
+calls is the same (a) before closing, (b) after closing and loading, and (c) in
+the run that was closed and loaded after every single call. -/
+theorem C10_every_prefix (ks : List (Call α)) (hs : ∀ k ∈ ks, k.settles) (db : α)
+    (q : α → Int → β) (h : Handle) (n : Nat) :
+    observe q (runCalls (Conn.idle db) (ks.take n)).reopen h = observe q (runCalls (Conn.idle db) (ks.take n)) h ∧
+    observe q (runCallsReopen (Conn.idle db) (ks.take n)) h = observe q (runCalls (Conn.idle db) (ks.take n)) h := by
+  have hs' : ∀ k ∈ ks.take n, k.settles := fun k hk => hs k (List.mem_of_mem_take hk)
+  exact ⟨C10_reopen_observes _ hs' db q h, by rw [C10_reopen_invisible _ hs' db]⟩
+
+/-- Link to C14: a call whose statement kinds the C14 monitor accepts
+(`atomicShape`) settles.  So on a library where every public mutating call has
+an atomic shape — what C14's tie establishes call by call — every history is
+settled and `C10_reopen_observes` applies, faults included. -/
+theorem C10_atomic_calls_settle (k : Call α) (h : atomicShape (k.cmds.map Cmd.kind) = true) : k.settles := by
+  simp only [atomicShape] at h
+  split at h
+  · rename_i s hs
+    have := shapeRun_closedRun _ _ _ hs
+    simp only [ShapeSt.init] at this
+    simp only [Bool.not_eq_eq_eq_not, Bool.not_true] at h
+    simp [Call.settles, closedShape, this, h]
+  · cases h
+
+/-! ### (i′) the concrete API models behind the connection
+
+`Api.CratesV1`, `Db.V2` (crates 2.x) and `TracksV2.Db` model every public call
+as a function of the stored tables and ids; seen from the connection a call
+makes the model's resulting state durable (`apiCall`).  Then every observation
+the concrete models define — after the history, after closing and loading, or
+after closing and loading at every prefix — is the observation of the model's
+own run. -/
+
+/-- A history of calls of a deterministic API model is settled and reaches the
+model's own fold. -/
+theorem C10_api_model {ω : Type} (step : α → ω → α) (ops : List ω) (db : α) :
+    (∀ k ∈ ops.map (apiCall step), k.settles) ∧
+    runCalls (Conn.idle db) (ops.map (apiCall step)) = Conn.idle (ops.foldl step db) := by
+  refine ⟨?_, ?_⟩
+  · intro k hk
+    obtain ⟨op, _, rfl⟩ := List.mem_map.1 hk
+    simp [Call.settles, apiCall, closedShape, closedRun, closedStep, Cmd.kind]
+  · induction ops generalizing db with
+    | nil => rfl
+    | cons op ops ih =>
+      simp only [List.map_cons, runCalls, List.foldl_cons]
+      have : (exec (apiCall step op).fault (apiCall step op).auto (apiCall step op).cmds 0 0 (Conn.idle db)).conn
+          = Conn.idle (step db op) := by
+        simp [apiCall, exec, faultable, Cmd.kind, stepStmt, Conn.idle, Outcome.cons]
+      rw [this]
+      exact ih _
+
+/-- … hence closing and loading — once, or after every call — shows the state of
+the model's own run, at every prefix. -/
+theorem C10_api_model_reopen {ω : Type} (step : α → ω → α) (ops : List ω) (db : α) (n : Nat) :
+    (runCalls (Conn.idle db) ((ops.take n).map (apiCall step))).reopen.view = (ops.take n).foldl step db ∧
+    (runCallsReopen (Conn.idle db) ((ops.take n).map (apiCall step))).view = (ops.take n).foldl step db := by
+  obtain ⟨hs, hr⟩ := C10_api_model step (ops.take n) db
+  refine ⟨?_, ?_⟩
+  · rw [hr]; rfl
+  · rw [C10_reopen_invisible _ hs db, hr]; rfl
+
+open EngineModel.Api in
+/-- Schema-1.x crates and memberships (`Api.CratesV1`, every version): the full
+observation — every query of every crate / track handle held and every probe
+name — after closing and loading at every prefix is the model's own. -/
+theorem C10_crates_v1 (s : Schema) (ops : List CratesV1.Op) (db : CratesV1.Db)
+    (handles thandles : List CratesV1.Id) (names : List CratesV1.Name) (n : Nat) :
+    CratesV1.observe s (runCallsReopen (Conn.idle db)
+        ((ops.take n).map (apiCall fun d op => (CratesV1.step s d op).1))).view handles thandles names
+      = CratesV1.observe s (CratesV1.run s db (ops.take n)) handles thandles names := by
+  rw [(C10_api_model_reopen _ ops db n).2]
+  rfl
+
+theorem v2_run_foldl (ops : List Db.V2.Op) (d : Db.V2.Db) :
+    Db.V2.run d ops = ops.foldl (fun d op => (Db.V2.step d op).1) d := by
+  induction ops generalizing d with
+  | nil => rfl
+  | cons op ops ih => simp [Db.V2.run, ih]
+
+/-- Schema-2.x crates and memberships (`Db.V2`): the same, for every query of
+the model (`crates`, `root_crates`, `children`, `descendants`, `parent`, `name`,
+`tracks`, …) applied through any function `q` of the stored tables. -/
+theorem C10_crates_v2 {β : Type} (ops : List Db.V2.Op) (db : Db.V2.Db) (q : Db.V2.Db → β) (n : Nat) :
+    q (runCallsReopen (Conn.idle db) ((ops.take n).map (apiCall fun d op => (Db.V2.step d op).1))).view
+      = q (Db.V2.run db (ops.take n)) := by
+  rw [(C10_api_model_reopen _ ops db n).2, v2_run_foldl]
+
+/-- Schema-2.x tracks (`TracksV2.Db`): after any history of setter calls, closed
+and loaded after each, `snapshot()` of any track is the one of the model's run. -/
+theorem C10_tracks_v2 (o : TracksV2.FOps) (calls : List (Nat × TracksV2.Setter)) (db : TracksV2.Db) (id n : Nat) :
+    TracksV2.Db.snapshot o (runCallsReopen (Conn.idle db)
+        ((calls.take n).map (apiCall fun d c => (TracksV2.Db.set o d c.1 c.2).1))).view id
+      = TracksV2.Db.snapshot o ((calls.take n).foldl (fun d c => (TracksV2.Db.set o d c.1 c.2).1) db) id := by
+  rw [(C10_api_model_reopen _ calls db n).2]
+
+/-- One public mutating track call of the 1.x model as a state transformer (a call that throws changes nothing). -/
+def tracksV1Step (o : EngineModel.TracksV1.Fl.FOps) (d : TracksV1.Db) (op : TracksV1.TOp) : TracksV1.Db :=
+  match TracksV1.topStep o d op with
+  | .ok d' => d'
+  | _ => d
+
+/-- Schema-1.x tracks (`TracksV1`): after any history of track calls (create, update, every setter, remove),
+closed and loaded after each, every accessor of the model — `snapshot()`, any getter, `is_valid`, through any
+function `q` of the tables — answers as in the model's own run, at every prefix. -/
+theorem C10_tracks_v1 {β : Type} (o : EngineModel.TracksV1.Fl.FOps) (calls : List TracksV1.TOp) (db : TracksV1.Db) (q : TracksV1.Db → β) (n : Nat) :
+    q (runCallsReopen (Conn.idle db) ((calls.take n).map (apiCall (tracksV1Step o)))).view
+      = q ((calls.take n).foldl (tracksV1Step o) db) ∧
+    q (runCalls (Conn.idle db) ((calls.take n).map (apiCall (tracksV1Step o)))).reopen.view
+      = q ((calls.take n).foldl (tracksV1Step o) db) := by
+  rw [(C10_api_model_reopen _ calls db n).2, (C10_api_model_reopen _ calls db n).1]
+  exact ⟨rfl, rfl⟩
+
 /-! ### (ii) reload -/
 
 /-- Re-export of `C13_reload`: what a creator stamps is detected as that schema. -/
@@ -95,33 +237,138 @@ library can create, the 18 supported ones and 3.0.0. -/
 theorem C10_load_reports_created (s : Schema) : loadCreated s = .loaded s := by
   cases s <;> decide
 
-/-! ### (iii) create_or_load -/
+/-! ### (iii) create_or_load, load and database_exists over the directory model (`Spec/Dir.lean`)
 
-/-- `create_or_load_database` creates exactly when no library exists in the
-directory; then the requested schema is what is open.  When one exists it is
-loaded, not re-created, and its own schema is reported — whatever was requested. -/
-theorem C10_create_or_load (existing : Option Schema) (req : Schema) :
-    ((createOrLoadDir existing req).1 = true ↔ existing = none) ∧
-    (existing = none → (createOrLoadDir existing req).2 = .loaded req) ∧
-    (∀ s, existing = some s → (createOrLoadDir existing req) = (false, .loaded s)) := by
-  cases existing with
-  | none => simp [createOrLoadDir, createOrLoad, loadModel]
-  | some s =>
-    have := C10_load_reports_created s
-    simp [createOrLoadDir, createOrLoad, this]
+The directory model keeps the state of `m.db`, `p.db`, `Database2/`, `Database2/m.db` (absent / valid / zero
+bytes / not a database) and the stamps of valid files; its functions are written from file-system primitives
+that create files (`openCreate`), so the statements below are about the guards of the code. -/
+section dir
+open EngineModel.Spec.Dir EngineModel.Proofs.Dir
 
-/-- The general decision logic (any load outcome): re-export of `C13_create_or_load`. -/
-theorem C10_create_or_load_logic (o : LoadOutcome) (req : Schema) :
-    ((createOrLoad o req).1 = true ↔ o = .database_not_found) ∧
-    (o ≠ .database_not_found → (createOrLoad o req).2 = o) :=
-  C13.C13_create_or_load o req
+/-- **create-or-load creates a library exactly when none exists**: the `created` flag is set iff neither
+`m.db` nor `Database2/m.db` is there — for every directory state (all four presence combinations, any file
+content, with or without `p.db` / `Database2/`) and every requested schema. -/
+theorem C10_create_or_load_iff (d : Dir) (req : Schema) :
+    (createOrLoadAt d req).created = true ↔ (legacyExists d = false ∧ db2Exists d = false) :=
+  createOrLoadAt_created_iff d req
+
+/-- When a library exists (in whatever state) nothing is created or written: the directory is as before and the
+answer is `load_database`'s — the loaded schema, whatever was requested, or its exception. -/
+theorem C10_create_or_load_existing (d : Dir) (req : Schema) (h : legacyExists d = true ∨ db2Exists d = true) :
+    createOrLoadAt d req = ⟨d, false, (loadDatabase d).2⟩ := by
+  have hc : (createOrLoadAt d req).created = false := by
+    cases hcr : (createOrLoadAt d req).created
+    · rfl
+    · have := (C10_create_or_load_iff d req).1 hcr
+      rcases h with h | h <;> simp_all
+  have := createOrLoadAt_not_created d req hc
+  cases hr : createOrLoadAt d req with
+  | mk dir created res => simp_all
+
+/-- Both layouts present (the reviewer's case): `load_database` reports "not found", and create-or-load does
+**not** create — it rethrows, leaving both libraries as they are. -/
+theorem C10_create_or_load_both_layouts (d : Dir) (req : Schema) (h1 : legacyExists d = true) (h2 : db2Exists d = true) :
+    createOrLoadAt d req = ⟨d, false, .throw notFound⟩ := by
+  rw [C10_create_or_load_existing d req (Or.inl h1), (load_notFound_iff d).2 (by rw [h1, h2])]
+
+/-- No library there and creation possible (a 2.x request, or no stray `p.db` that already holds tables / is not a
+database): the requested schema is created, loads back as such (`load_database` and `database_exists` on the
+resulting directory), and a second create-or-load — whatever it requests — loads it instead of creating. -/
+theorem C10_create_or_load_creates (d : Dir) (req req' : Schema) (hwf : d.wf = true)
+    (hl : legacyExists d = false) (h2 : db2Exists d = false)
+    (hp : createsDb2 req = true ∨ d.p = .absent ∨ d.p = .zero) :
+    (createOrLoadAt d req).created = true ∧ (createOrLoadAt d req).res = .ok req ∧
+    (loadDatabase (createOrLoadAt d req).dir).2 = .ok req ∧
+    (databaseExists (createOrLoadAt d req).dir).2 = .ok true ∧
+    createOrLoadAt (createOrLoadAt d req).dir req' = ⟨(createOrLoadAt d req).dir, false, .ok req⟩ := by
+  have hnf : (loadDatabase d).2 = .throw notFound := (load_notFound_iff d).2 (by rw [hl, h2])
+  have hcr : createOrLoadAt d req = ⟨(createDatabase d req).1, true, (createDatabase d req).2⟩ := by
+    unfold createOrLoadAt createOrLoadAtWith
+    simp [loadDatabase_dir, hnf, hl, h2]
+  have key : (createDatabase d req).2 = .ok req ∧ (loadDatabase (createDatabase d req).1).2 = .ok req ∧
+      (legacyExists (createDatabase d req).1 = true ∨ db2Exists (createDatabase d req).1 = true) := by
+    obtain ⟨dir, m, p, dd2, dm, stL, stD⟩ := d
+    have hdet := detect_stampOf req
+    cases hc : createsDb2 req
+    · have hp' : p = .absent ∨ p = .zero := by simpa [hc] using hp
+      have hlt : ¬ Schema.schema_2_18_0.ord ≤ req.ord := by simpa [createsDb2] using hc
+      cases dir <;> cases m <;> cases dd2 <;> cases dm <;> rcases hp' with rfl | rfl <;>
+        simp_all [Dir.wf, legacyExists, db2Exists, FileSt.present, createDatabase, createLegacy, createDb2, openCreate,
+          createIn, loadDatabase, loadDatabaseWith, detectIsDb2, loadLegacyWith, loadLegacySqlite, v2LoadWith,
+          loadDb2Sqlite, Res.bind, requireDb2Schema]
+    · have hle : Schema.schema_2_18_0.ord ≤ req.ord := by simpa [createsDb2] using hc
+      cases dir <;> cases m <;> cases p <;> cases dd2 <;> cases dm <;>
+        simp_all [Dir.wf, legacyExists, db2Exists, FileSt.present, createDatabase, createLegacy, createDb2, openCreate,
+          createIn, loadDatabase, loadDatabaseWith, detectIsDb2, loadLegacyWith, loadLegacySqlite, v2LoadWith,
+          loadDb2Sqlite, Res.bind, requireDb2Schema]
+  obtain ⟨k1, k2, k3⟩ := key
+  have hex := C10_create_or_load_existing (createDatabase d req).1 req' k3
+  refine ⟨by rw [hcr], by rw [hcr]; exact k1, by rw [hcr]; exact k2, ?_, ?_⟩
+  · rw [hcr]
+    show (databaseExistsWith loadDatabase _).2 = _
+    simp [databaseExistsWith, k2, existsAnswer]
+  · rw [hcr]; simp only; rw [hex, k2]
+
+/-- The creation-failure outcome: no library there, a 1.x schema requested, but a stray `p.db` that already holds
+tables or is not a database.  `created` is set, the creator throws, and what it wrote before failing stays
+(an `m.db` appears) — the one case in which create-or-load neither loads nor delivers a library. -/
+theorem C10_create_or_load_creation_fails (d : Dir) (req : Schema) (hwf : d.wf = true)
+    (hl : legacyExists d = false) (h2 : db2Exists d = false)
+    (hreq : createsDb2 req = false) (hp : d.p = .valid ∨ d.p = .garbage) :
+    (createOrLoadAt d req).created = true ∧ (createOrLoadAt d req).res = .throw .sqlite_error ∧
+    (createOrLoadAt d req).dir.m.present = true ∧ (createOrLoadAt d req).dir.p = d.p := by
+  have hnf : (loadDatabase d).2 = .throw notFound := (load_notFound_iff d).2 (by rw [hl, h2])
+  have hcr : createOrLoadAt d req = ⟨(createDatabase d req).1, true, (createDatabase d req).2⟩ := by
+    unfold createOrLoadAt createOrLoadAtWith
+    simp [loadDatabase_dir, hnf, hl, h2]
+  rw [hcr]
+  obtain ⟨dir, m, p, dd2, dm, stL, stD⟩ := d
+  simp only at hp
+  cases dir <;> cases m <;> cases dd2 <;> cases dm <;> rcases hp with rfl | rfl <;>
+    simp_all [Dir.wf, legacyExists, db2Exists, FileSt.present, createDatabase, createLegacy, openCreate, createIn]
+
+/-- What a creator writes (into no directory, or an empty one) is the layout of its generation and loads back as the
+created schema — every schema the library can create, the 18 supported ones and 3.0.0. -/
+theorem C10_dir_load_reports_created (s : Schema) :
+    (loadDatabase (createDatabase noDir s).1).2 = .ok s ∧ (loadDatabase (createDatabase emptyDir s).1).2 = .ok s ∧
+    (createDatabase noDir s).1.shape = (if createsDb2 s then "aav" else "vva") := by
+  cases s <;> decide
+
+/-- `load_database`, `database_exists` (and the 2.x entry points `engine_library::load` / `exists`) never change
+the directory — whatever is in it. -/
+theorem C10_load_exists_keep_directory (d : Dir) :
+    (loadDatabase d).1 = d ∧ (databaseExists d).1 = d ∧ (v2Load d).1 = d ∧ (v2Exists d).1 = d :=
+  ⟨loadDatabase_dir d, databaseExists_dir d, v2Load_dir d, rfl⟩
+
+/-- The code before 1fcc407 (create whenever the loader says "not found") does not satisfy the property: with a
+zero-byte `m.db` next to a valid `Database2/m.db` and a 1.x request it reports `created` and writes a 1.x library
+over the existing files.  Replayed on the real library: corpus/C10/create-over-both-layouts.txt. -/
+theorem C10_create_or_load_old_counterexample :
+    let d : Dir := ⟨true, .zero, .absent, true, .valid, stampOf .schema_1_18_0_os, stampOf .schema_2_21_2⟩
+    db2Exists d = true ∧ (createOrLoadAtOld d .schema_1_18_0_os).created = true ∧
+    (createOrLoadAtOld d .schema_1_18_0_os).dir ≠ d ∧ (createOrLoadAt d .schema_1_18_0_os) = ⟨d, false, .throw notFound⟩ := by
+  decide
+
+end dir
 
 /-! ### non-vacuity -/
 example : loadCreated .schema_1_18_0_desktop = .loaded .schema_1_18_0_desktop ∧
     loadCreated .schema_1_18_0_os = .loaded .schema_1_18_0_os ∧
     loadCreated .schema_2_21_2 = .loaded .schema_2_21_2 := by decide
-example : createOrLoadDir none .schema_2_18_0 = (true, .loaded .schema_2_18_0) := by decide
-example : createOrLoadDir (some .schema_1_6_0) .schema_2_21_2 = (false, .loaded .schema_1_6_0) := by decide
+open EngineModel.Spec.Dir in
+example : (createOrLoadAt noDir .schema_2_18_0).created = true ∧ (createOrLoadAt noDir .schema_2_18_0).res = .ok .schema_2_18_0 ∧
+    (createOrLoadAt noDir .schema_2_18_0).dir.shape = "aav" := by decide
+open EngineModel.Spec.Dir in
+/-- an existing 1.6.0 library, 2.21.2 requested: loaded, reported as 1.6.0, directory untouched -/
+example : createOrLoadAt (createDatabase emptyDir .schema_1_6_0).1 .schema_2_21_2
+    = ⟨(createDatabase emptyDir .schema_1_6_0).1, false, .ok .schema_1_6_0⟩ := by decide
+open EngineModel.Spec.Dir in
+/-- the hypotheses of `C10_create_or_load_creates` / `_creation_fails` are satisfiable -/
+example : emptyDir.wf = true ∧ legacyExists emptyDir = false ∧ db2Exists emptyDir = false ∧ emptyDir.p = .absent := by decide
+open EngineModel.Spec.Dir in
+example : let d : Dir := { emptyDir with p := .valid }
+    d.wf = true ∧ legacyExists d = false ∧ db2Exists d = false ∧
+    (createOrLoadAt d .schema_1_18_0_os).res = .throw .sqlite_error ∧ (createOrLoadAt d .schema_1_18_0_os).dir.shape = "vva" := by decide
 /-- a settled history with a failed call in the middle -/
 example : (⟨[.begin, .write (fun n => some (n + 1)), .commit], some 1, false⟩ : Call Nat).settles := by
   simp [Call.settles, closedShape, closedRun, closedStep, Cmd.kind]
@@ -129,5 +376,25 @@ example : (runCalls (Conn.idle (0 : Nat))
     [⟨[.write (fun n => some (n + 1))], none, false⟩,
      ⟨[.begin, .write (fun n => some (n + 10)), .commit], some 1, false⟩,
      ⟨[.begin, .write (fun n => some (n + 100)), .commit], none, true⟩]) = Conn.idle 101 := by rfl
+
+/-- reopening after every call of a settled history (one call fails, one runs in a scope) is invisible -/
+example : runCallsReopen (Conn.idle (0 : Nat))
+    [⟨[.write (fun n => some (n + 1))], none, false⟩,
+     ⟨[.begin, .write (fun n => some (n + 10)), .commit], some 1, false⟩,
+     ⟨[.begin, .write (fun n => some (n + 100)), .commit], none, true⟩] = Conn.idle 101 := by rfl
+/-- … and it is visible when a call does not settle: the second call's write joins the transaction the first
+left open when the session is kept, and is all that survives when the library is closed in between -/
+example : (runCalls (Conn.idle (0 : Nat))
+      [⟨[.begin, .write (fun n => some (n + 1))], none, false⟩, ⟨[.write (fun n => some (n + 10)), .commit], none, false⟩]).view = 11 ∧
+    (runCallsReopen (Conn.idle (0 : Nat))
+      [⟨[.begin, .write (fun n => some (n + 1))], none, false⟩, ⟨[.write (fun n => some (n + 10)), .commit], none, false⟩]).view = 10 := by
+  decide
+/-- the C14 monitor's shapes settle -/
+example : atomicShape ((⟨[.read, .begin, .write (fun n => some (n + 1)), .write (fun n => some (n + 2)), .commit], none, false⟩ :
+    Call Nat).cmds.map Cmd.kind) = true := by decide
+/-- concrete models: a 1.x history whose observation after reopening at every prefix is not trivial -/
+example : EngineModel.Api.CratesV1.crateTracks .schema_1_18_0_os
+    (EngineModel.Api.CratesV1.run .schema_1_18_0_os EngineModel.Api.CratesV1.Db.empty
+      [.createRoot [65], .createSub 1 [66], .createTrack, .addTrack 2 1]) 2 = [1] := by decide +kernel
 
 end EngineModel.Properties.C10
